@@ -229,6 +229,32 @@ theorem decodeHeader_object_ne_nil (s : Sch) (ex : Bool) (raw : String) (c : Dec
     (hc : c ≠ .nil) : decodeHeader s ex raw c ≠ .nil := by
   simpa [decodeHeader, h] using decodeObject_ne_nil s ex raw c hc
 
+/-- **Integers round-trip.** The decimal text of every 64-bit integer (strconv.FormatInt) is read back as that
+integer by the model of strconv.ParseInt. -/
+theorem parseInt64_showInt (n : Int) (h : -9223372036854775808 ≤ n ∧ n ≤ 9223372036854775807) :
+    parseInt64 (showInt n) = some n := by
+  cases n with
+  | ofNat k =>
+    have : k ≤ 9223372036854775807 := by have := h.2; simp only [Int.ofNat_eq_natCast] at this; omega
+    exact parseInt64_showNat k this
+  | negSucc k =>
+    have hk : k + 1 ≤ 9223372036854775808 := by have := h.1; omega
+    have := parseInt64_neg_showNat (k + 1) hk
+    simpa [showInt, Int.negSucc_eq] using this
+
+/-- An integer-typed header carrying the decimal text of a 64-bit integer decodes to that integer. -/
+theorem decodeHeader_integer_roundtrip (s : Sch) (ex : Bool) (c : Dec) (n : Int) (ht : s.core.ty = .integer)
+    (h : -9223372036854775808 ≤ n ∧ n ≤ 9223372036854775807) :
+    decodeHeader s ex (String.ofList (showInt n)) c = .val (.num n) := by
+  have hne : String.ofList (showInt n) ≠ "" := by
+    intro he
+    have := congrArg String.toList he
+    simp only [String.toList_ofList] at this
+    have hp := parseInt64_showInt n h
+    rw [this] at hp
+    simp [parseInt64, splitSign] at hp
+  simp [decodeHeader, parsePrim, ht, hne, String.toList_ofList, parseInt64_showInt n h]
+
 def intHdrSchema : Sch := .mk { ty := .integer } .nil .none .none
 def arrHdrSchema (it : OSch) : Sch := .mk { ty := .array } .nil .none it
 
@@ -241,6 +267,15 @@ def JL.nums : JL → List (Option Int)
   | .cons (.num n) r => some n :: JL.nums r
   | .cons _ r => none :: JL.nums r
 def Dec.isNums (ns : List Int) : Dec → Bool | .val (.arr xs) => xs.nums == ns.map some | _ => false
+
+/-- A header key that is present without any value is found and yields no value — except under an object schema,
+where the decoder's nil map reaches the validator as an empty object. -/
+theorem decodeHdrVal_no_value (s : Sch) (ex : Bool) (c : Dec) :
+    (s.core.ty = .object → ∃ kvs, decodeHdrVal s ex none c = .val (.obj kvs) ∧ ∀ k, kvs.get k = none) ∧
+    (s.core.ty ≠ .object → (decodeHdrVal s ex none c).isNil = true) := by
+  constructor
+  · intro h; exact ⟨.nil, by simp [decodeHdrVal, h], fun _ => rfl⟩
+  · intro h; unfold decodeHdrVal; cases ht : s.core.ty <;> simp_all [Dec.isNil]
 
 /-- strconv.ParseInt base 10 / 64 bit and strconv.ParseBool on the texts the differential run also replays -/
 example : ([("5", 5), ("+5", 5), ("-0", 0), ("007", 7), ("-3", -3), ("9223372036854775807", 9223372036854775807),
@@ -317,6 +352,32 @@ theorem undefined_status (canon : String → String) (reg : List (String × Stri
   rw [firstSome_statusKeys, hn]
   cases o.strict <;> cases i.responses.isEmpty <;> simp [hm, hs]
 
+/-- An entry whose reference was never resolved (`Value == nil`) is an error whatever the response looks like. -/
+theorem unresolved_entry_rejected (canon : String → String) (reg : List (String × String)) (o : Opts) (i : Input)
+    (r : Resp) (hm : i.method ≠ "HEAD") (hs : skipStatus i.status = false)
+    (hsel : selected i.responses i.status = some r) (hr : r.resolved = false) :
+    validateResponse canon reg o i = ⟨some .respUnresolved, some i.body⟩ ∧ ¬ Accept canon reg o i := by
+  have he : i.responses.isEmpty = false := by
+    cases h : i.responses.isEmpty with
+    | false => rfl
+    | true =>
+      have hnil : i.responses = [] := List.isEmpty_iff.mp h
+      have : selected i.responses i.status = none := by
+        rw [hnil]; unfold selected statusKeys
+        cases classKey i.status <;> simp [firstSome, lookup]
+      simp [hsel] at this
+  constructor
+  · unfold validateResponse
+    rw [firstSome_statusKeys, hsel]
+    simp [hm, hs, he, hr]
+  · intro h
+    unfold Accept at h
+    rcases h with h | h
+    · rcases h with h | h
+      · exact hm h
+      · have := (skipStatus_iff _).mpr h; simp [hs] at this
+    · rw [hsel] at h; simp [hr] at h
+
 theorem acceptB_iff (canon : String → String) (reg : List (String × String)) (o : Opts) (i : Input) :
     acceptB canon reg o i = true ↔ Accept canon reg o i := by
   unfold acceptB Accept
@@ -327,6 +388,8 @@ theorem acceptB_iff (canon : String → String) (reg : List (String × String)) 
   | none => simp
   | some r =>
     simp only [Bool.and_eq_true, List.all_eq_true, Bool.or_eq_true, decide_eq_true_eq, headerOKB_iff, bodyOKB_iff]
+    rw [and_assoc]
+    apply and_congr Iff.rfl
     apply and_congr
     · constructor
       · intro h x hx hn
@@ -377,7 +440,18 @@ theorem accept_iff_partial (canon : String → String) (reg : List (String × St
             cases h : i.responses.isEmpty with
             | false => rfl
             | true => have := hempty h; simp [hsel] at this
-          rw [validateResponse_selected canon reg o i r hm hs he hsel]
+          cases hr : r.resolved with
+          | false =>
+            constructor
+            · intro h
+              unfold validateResponse at h
+              rw [firstSome_statusKeys, hsel] at h
+              simp [hm, hs, he, hr] at h
+            · intro h; exact absurd h.1 (by simp [hr])
+          | true =>
+          simp only [hr, true_and]
+          have hr' : r.resolved = true := hr
+          rw [validateResponse_selected canon reg o i r hm hs he hsel hr']
           have hex : ∀ h, h ∈ r.headers → h.name ≠ "Content-Type" →
               hdrDecodedNil canon i.hdrs h = false ∧ hdrArrayNoItems canon i.hdrs h = false := by
             intro h hmem hn
@@ -443,16 +517,16 @@ theorem multiError_irrelevant (canon : String → String) (reg : List (String ×
 /-- ExcludeResponseBody removes exactly the body check: the headers decide. -/
 theorem excludeBody_headers_decide (canon : String → String) (reg : List (String × String)) (o : Opts) (i : Input) (r : Resp)
     (hb : o.excludeBody = true) (hm : i.method ≠ "HEAD") (hs : skipStatus i.status = false)
-    (he : i.responses ≠ []) (hsel : selected i.responses i.status = some r) :
+    (he : i.responses ≠ []) (hsel : selected i.responses i.status = some r) (hr : r.resolved = true) :
     (validateResponse canon reg o i).err = firstErr (checkHeader canon o.woOff i.hdrs) (checkedHeaders r) := by
   unfold validateResponse
   have : i.responses.isEmpty = false := by cases h : i.responses <;> simp_all
   rw [firstSome_statusKeys, hsel]
-  simp only [hm, hs, this, if_false, Bool.false_eq_true]
+  simp only [hm, hs, this, hr, if_false, Bool.false_eq_true, Bool.not_true, Bool.false_and]
   cases firstErr (checkHeader canon o.woOff i.hdrs) (checkedHeaders r) <;> simp [checkBody, hb]
 
 /-- The header error reported is the one of a declared header other than Content-Type. -/
-theorem header_error_names_declared (canon : String → String) (w : Bool) (hdrs : List (String × String))
+theorem header_error_names_declared (canon : String → String) (w : Bool) (hdrs : List (String × Option String))
     (r : Resp) (e : Err) (h : firstErr (checkHeader canon w hdrs) (checkedHeaders r) = some e) :
     ∃ x, x ∈ r.headers ∧ x.name ≠ "Content-Type" ∧ checkHeader canon w hdrs x = some e := by
   have : ∀ l : List Hdr, firstErr (checkHeader canon w hdrs) l = some e → ∃ x, x ∈ l ∧ checkHeader canon w hdrs x = some e := by
@@ -470,7 +544,7 @@ theorem header_error_names_declared (canon : String → String) (w : Bool) (hdrs
 
 /-- **Order of the header loop.** The header error reported is the one of the failing declared header with the
 least name (`sort.Strings`): every declared header that fails has a name at least as large. -/
-theorem header_error_is_least_failing (canon : String → String) (w : Bool) (hdrs : List (String × String))
+theorem header_error_is_least_failing (canon : String → String) (w : Bool) (hdrs : List (String × Option String))
     (r : Resp) (e : Err) (h : firstErr (checkHeader canon w hdrs) (checkedHeaders r) = some e) :
     ∃ x, x ∈ r.headers ∧ x.name ≠ "Content-Type" ∧ checkHeader canon w hdrs x = some e ∧
       ∀ y, y ∈ r.headers → y.name ≠ "Content-Type" → checkHeader canon w hdrs y ≠ none → x.name ≤ y.name := by
@@ -491,7 +565,7 @@ theorem header_error_is_least_failing (canon : String → String) (w : Bool) (hd
       exact (List.pairwise_cons.mp this).1 y hpost
 
 /-- A header described by `content` is only checked for presence (finding #22, fixed). -/
-theorem header_by_content_presence_only (canon : String → String) (w : Bool) (hdrs : List (String × String))
+theorem header_by_content_presence_only (canon : String → String) (w : Bool) (hdrs : List (String × Option String))
     (h : Hdr) (hs : h.schema = none) :
     checkHeader canon w hdrs h = none ↔ (present canon hdrs h = true ∨ h.required = false) := by
   unfold checkHeader
@@ -581,12 +655,12 @@ theorem genReg_text_decoders :
 /-! ### Witnesses of the exclusion classes (model ≠ spec on a concrete input inside the class) -/
 
 def strHdr (s : Sch) : Hdr := { name := "X-A", required := false, schema := some s, explode := false }
-def inp (resps : List (String × Resp)) (hdrs : List (String × String)) (d : Dec) : Input :=
+def inp (resps : List (String × Resp)) (hdrs : List (String × Option String)) (d : Dec) : Input :=
   { method := "GET", status := 200, responses := resps, hdrs := hdrs, body := "", readFails := false, bodyDec := d }
 
 /-- `X-A: abc` against the header schema `{}`: rejected ("Value is not nullable") although every value satisfies `{}`. -/
 theorem witness_HdrDecodedNil :
-    let i := inp [("200", ⟨[strHdr (.mk {} .nil .none .none)], []⟩)] [("X-A", "abc")] .err
+    let i := inp [("200", ⟨[strHdr (.mk {} .nil .none .none)], [], true⟩)] [("X-A", "abc")] .err
     HdrDecodedNil id i = true ∧ (validateResponse id genReg {} i).err = some (.hdrSchema "X-A") ∧ acceptB id genReg {} i = true := by
   decide
 
@@ -597,7 +671,7 @@ def pwHdrSchema : Sch :=
 write-only is rejected by the model and by the spec, lies in no exclusion class, and is accepted again when the
 write-only checks are switched off. -/
 theorem header_writeOnly_rejected :
-    let i := inp [("200", ⟨[strHdr pwHdrSchema], []⟩)] [("X-A", "pw,x")] .err
+    let i := inp [("200", ⟨[strHdr pwHdrSchema], [], true⟩)] [("X-A", "pw,x")] .err
     Excluded id {} i = false ∧ (validateResponse id genReg {} i).err = some (.hdrSchema "X-A") ∧ acceptB id genReg {} i = false ∧
       (validateResponse id genReg { woOff := true } i).err = none ∧ acceptB id genReg { woOff := true } i = true := by
   decide
@@ -610,13 +684,13 @@ def pwReqHdrSchema : Sch :=
 /-- Regression (F-C08-2, second half): a header object that (rightly) omits its required write-only property is
 accepted by the model and by the spec. -/
 theorem header_required_writeOnly_absent_accepted :
-    let i := inp [("200", ⟨[strHdr pwReqHdrSchema], []⟩)] [("X-A", "n,x")] .err
+    let i := inp [("200", ⟨[strHdr pwReqHdrSchema], [], true⟩)] [("X-A", "n,x")] .err
     Excluded id {} i = false ∧ (validateResponse id genReg {} i).err = none ∧ acceptB id genReg {} i = true := by
   decide
 
 /-- `X-A: 1,2` against the header schema `{type: array}` (no `items`): nil dereference. -/
 theorem witness_HdrArrayNoItems :
-    let i := inp [("200", ⟨[strHdr (arrHdrSchema .none)], []⟩)] [("X-A", "1,2")] .err
+    let i := inp [("200", ⟨[strHdr (arrHdrSchema .none)], [], true⟩)] [("X-A", "1,2")] .err
     HdrArrayNoItems id i = true ∧ (validateResponse id genReg {} i).err = some (.hdrPanic "X-A") ∧
       acceptB id genReg {} i = false := by
   decide
@@ -634,7 +708,7 @@ theorem empty_map_strict_rejected :
 /-- Regression (F-C08-4, fixed): body `{"pw": null}` against a schema whose nullable property `pw` is write-only
 is rejected by the model and by the spec, and lies in no exclusion class. -/
 theorem writeOnly_null_rejected_in_body :
-    let i := inp [("200", ⟨[], [("application/json", ⟨some (pwSchema true)⟩)]⟩)] [("Content-Type", "application/json")]
+    let i := inp [("200", ⟨[], [("application/json", ⟨some (pwSchema true)⟩)], true⟩)] [("Content-Type", "application/json")]
               (.val (.obj (.cons "pw" .null .nil)))
     Excluded id {} i = false ∧ (validateResponse id genReg {} i).err = some .bodySchema ∧ acceptB id genReg {} i = false := by
   decide
@@ -644,11 +718,11 @@ theorem writeOnly_null_rejected_in_body :
 def exResp : Resp :=
   ⟨[{ name := "X-B", required := true, schema := some (.mk { ty := .integer, maxI := some 9 } .nil .none .none) },
     { name := "X-A", required := false, schema := some (.mk { ty := .string } .nil .none .none) }],
-   [("application/json", ⟨some (pwSchema false)⟩)]⟩
+   [("application/json", ⟨some (pwSchema false)⟩)], true⟩
 
 def exIn (status : Int) (body : J) : Input :=
-  { method := "GET", status := status, responses := [("2XX", exResp), ("default", ⟨[], []⟩)],
-    hdrs := [("X-B", "5"), ("Content-Type", "application/json; charset=utf-8")], body := "…", readFails := false,
+  { method := "GET", status := status, responses := [("2XX", exResp), ("default", ⟨[], [], true⟩)],
+    hdrs := [("X-B", some "5"), ("Content-Type", some "application/json; charset=utf-8")], body := "…", readFails := false,
     bodyDec := .val body }
 
 example : Excluded id {} (exIn 201 (.obj (.cons "id" (.num 1) .nil))) = false := by decide
